@@ -102,6 +102,8 @@ impl Heap {
     }
 
     pub fn insert(&mut self, value: HeapValue) -> usize {
+        #[cfg(feature = "verif-hooks")]
+        crate::verif_hooks::yield_point(crate::verif_hooks::Site::Heap);
         self.values.push(value);
 
         self.values.len() - 1
@@ -124,10 +126,14 @@ impl Heap {
     }
 
     pub fn get(&self, id: usize) -> Option<&HeapValue> {
+        #[cfg(feature = "verif-hooks")]
+        crate::verif_hooks::yield_point(crate::verif_hooks::Site::Heap);
         self.values.get(id)
     }
 
     pub fn get_mut(&mut self, id: usize) -> Option<&mut HeapValue> {
+        #[cfg(feature = "verif-hooks")]
+        crate::verif_hooks::yield_point(crate::verif_hooks::Site::Heap);
         self.values.get_mut(id)
     }
 }
